@@ -120,14 +120,15 @@ int sm4_ccm_encrypt(const SM4_KEY *sm4_key, const uint8_t *iv, size_t ivlen,
 	memset(ctr + 1 + ivlen, 0, 15 - ivlen);
 	sm4_encrypt(sm4_key, ctr, block);
 
-	ctr[15] = 1;
-	sm4_ctr_n_encrypt(sm4_key, ctr, 15 - ivlen, in, inlen, out);
-
+	// the MAC is over the plaintext: compute it before `in` may be overwritten (out == in)
 	sm4_cbc_mac_update(&mac_ctx, in, inlen);
 	if (inlen % 16) {
 		sm4_cbc_mac_update(&mac_ctx, zeros, 16 - inlen % 16);
 	}
 	sm4_cbc_mac_finish(&mac_ctx, mac);
+
+	ctr[15] = 1;
+	sm4_ctr_n_encrypt(sm4_key, ctr, 15 - ivlen, in, inlen, out);
 	gmssl_memxor(tag, mac, block, taglen);
 
 	gmssl_secure_clear(&mac_ctx, sizeof(mac_ctx));
